@@ -384,10 +384,12 @@ pub fn run_profile<S: USet>(e: &mut Eng<S>, profile: &str, hists: usize, steps: 
         let regime = match profile {
             "mem" => [1, 2, 3, 5, 6, 6, 9, 10][h % 8],
             "term" => [4, 3, 4, 6, 12, 4, 5, 11][h % 8],
-            _ => (h % 12) as u64,
+            // small-value regimes (which reach the dense layout and the table -> dense conversion) get
+            // more weight than the huge-value ones (which all end in the plain table)
+            _ => [0u64, 1, 13, 2, 14, 3, 13, 5, 7, 14, 8, 9, 10, 13, 4, 6, 11, 12, 1, 14][h % 20],
         };
         let name = format!("{}-{}-r{}", profile, h, regime);
-        let st = if h % 7 == 6 { steps * 4 } else { steps };
+        let st = if h % 7 == 6 { steps * 4 } else if h % 3 == 2 { steps * 2 } else { steps };
         history(e, &name, st, regime, &w);
     }
 }
